@@ -195,10 +195,20 @@ func (s *Session) newVotedMsg(vc *voteCtx, kind string, proposerBech string) (*v
 		return &votedMsg{Msg: m, SetVote: func(v *relayertypes.Votes) { m.Vote = v }, Data: m.VoteSigDoc(), Payload: payload,
 			Extra: Ev{"pre": true, "post": true, "key": fmt.Sprintf("%x", raw[:5])}}, nil
 	case "NewConsolidation":
-		raw, _ := btc.Tx(s.R, []btc.Out{{Value: 50_000, Script: btc.SystemScript(vc.CurKey)}}, 0)
+		outs := []btc.Out{{Value: 50_000, Script: btc.SystemScript(vc.CurKey)}}
+		single := true
+		if s.R.Intn(8) == 0 { // a consolidation has exactly one output
+			single = false
+			if s.R.Intn(2) == 0 {
+				outs = append(outs, btc.Out{Value: 600, Script: btc.SystemScript(vc.CurKey)})
+			} else {
+				outs = append([]btc.Out{{Value: 600, Script: []byte{0x51}}}, outs...)
+			}
+		}
+		raw, _ := btc.Tx(s.R, outs, 0)
 		m := &bitcointypes.MsgNewConsolidation{Proposer: proposerBech, NoWitnessTx: raw}
 		return &votedMsg{Msg: m, SetVote: func(v *relayertypes.Votes) { m.Vote = v }, Data: m.VoteSigDoc(), Payload: payload,
-			Extra: Ev{"pre": true, "post": true, "payTo": fmt.Sprintf("%x", relayertypes.EncodePublicKey(vc.CurKey)[:5])}}, nil
+			Extra: Ev{"pre": single, "post": true, "payTo": fmt.Sprintf("%x", relayertypes.EncodePublicKey(vc.CurKey)[:5])}}, nil
 	}
 	return nil, fmt.Errorf("unknown kind %s", kind)
 }
